@@ -297,7 +297,7 @@ class DiffEqualityMixin(abc.ABC):
 
         """
         return self.aequals(
-            other, rtol=0, atol=0, equal_nan=False, check_dtypes=True
+            other, rtol=0, atol=0, equal_nan=True, check_dtypes=True
         )
 
     def __eq__(self, other):
